@@ -16,7 +16,8 @@ package nut14
 //@   ensures @sigs [C13] r0 == nil && !expired(p2pkTags) && p2pkTags.NSigs > 0 ==> hvs.calls == old(hvs.calls) + 1 && hvs.last && len(htlcWitness.Signatures) >= 1 && (forall i, j :: 0 <= i && i < j && j < len(htlcWitness.Signatures) ==> htlcWitness.Signatures[i] != htlcWitness.Signatures[j])
 //@   ensures @refund [C13] r0 == nil && expired(p2pkTags) && len(p2pkTags.Refund) > 0 ==> hvs.calls == old(hvs.calls) + 1 && hvs.last && len(htlcWitness.Signatures) >= 1
 //@   ensures @nosigcall [C13] r0 == nil && hvs.calls == old(hvs.calls) ==> (expired(p2pkTags) && len(p2pkTags.Refund) == 0) || (!expired(p2pkTags) && p2pkTags.NSigs <= 0)
-//@   ensures @onecall [C13] hvs.calls <= old(hvs.calls) + 1
+//@   ensures @onecall [C13] hvs.calls <= old(hvs.calls) + 1 && hvs.calls >= old(hvs.calls)
+//@   ensures @nofails [C13] r0 == nil ==> hvs.fails == old(hvs.fails)
 
 //@ func AddWitnessHTLC
 //@   tags C13
